@@ -172,6 +172,16 @@ func (a *Analyzer) CheckRule(clause ast.Clause) error {
 						boundVars[p.Interval.End.Variable] = true
 					}
 				}
+			case ast.Ineq:
+				// An inequality is a test: evaluation proceeds left-to-right, so
+				// both sides need a value at this point.
+				ineqVars := make(map[ast.Variable]bool)
+				ast.AddVars(originalPremises[i], ineqVars)
+				for v := range ineqVars {
+					if v.Symbol == "_" || !hasValue(boundVars, uf, v) {
+						return fmt.Errorf("variable %v in %v will not have a value yet; move the subgoal to the right", v, originalPremises[i])
+					}
+				}
 			case ast.Eq:
 				if _, isconst := p.Left.(ast.Constant); isconst {
 					if v, isvar := p.Right.(ast.Variable); isvar {
